@@ -317,6 +317,27 @@ void kv_run(int kind, struct msa *msa)
         } else if (msa->numseq >= 2) {
                 violation("C02", "no-merge-observed", "kalign_run returned OK without any merge event");
         }
+        /* rendering invariant: the gapped rows handed to the caller are exactly what the gap vectors say */
+        if (msa->aligned == ALN_STATUS_FINAL && msa->alnlen > 0) {
+                for (int i = 0; i < msa->numseq; i++) {
+                        struct msa_seq *q = msa->sequences[i];
+                        long pos = 0, nres = 0;
+                        int bad = 0;
+                        for (int r = 0; r <= q->len && !bad; r++) {
+                                for (int g = 0; g < q->gaps[r]; g++) {
+                                        if (pos >= msa->alnlen || q->seq[pos] != '-') { bad = 1; break; }
+                                        pos++;
+                                }
+                                if (bad || r == q->len) break;
+                                if (pos >= msa->alnlen || q->seq[pos] == '-' || q->seq[pos] == 0) { bad = 1; break; }
+                                pos++; nres++;
+                        }
+                        if (bad || pos != msa->alnlen) {
+                                snprintf(det, sizeof det, "sequence %d (rank %d): the rendered row disagrees with its gap vector at column %ld (alnlen %d)", i, q->rank, pos, msa->alnlen);
+                                violation("C10", "rendered-row-disagrees-with-gaps", det);
+                        }
+                }
+        }
         /* C10: check snapshots against the final alignment */
         long nodes_checked = 0, residues_checked = 0, c10_viol = 0;
         int maxmem = 0;
